@@ -225,10 +225,44 @@ def rule_final(facts):
     src = flow.ret_sources(b)
     oks = [o for o, k in src.items() if k in ("ok", "any", "other")]
     final = None
+    wrong = None
     for (bb, t, z, nz) in gs:
         s = pat.cmp_sides(t)
-        if bb not in blocks and s and s[0] in ("Ne", "Eq") and pat.has_call(t, "LzBuffer::len") and pat.has_field(t, "unpacked_size"):
-            final = (bb, t, z, nz, s[0])
+        if not s or not pat.has_call(t, "LzBuffer::len") or not pat.has_field(t, "unpacked_size"):
+            continue
+        if bb in blocks and s[0] in ("Ge", "Gt", "Le", "Lt"):
+            continue        # the loop's own "size reached" test (C08.R3)
+        # the test after the loop between the size in effect and the produced length, decided by its truth table:
+        # it must separate produced == size from everything else (so `!=`, `==`, `<`-or-`>` spellings are the same test,
+        # while `>` alone lets a short stream through)
+        try:
+            tv = {}
+            for size in (0, 1, 52, 59, 1 << 32):
+                for prod in (0, 1, 51, 52, 53, 59, 60, 1 << 32):
+                    def leaf(q, size=size, prod=prod):
+                        if q[0] == "field" and pat.has_field(q, "unpacked_size"):
+                            return size
+                        if q[0] == "call" and q[1].endswith("LzBuffer::len"):
+                            return prod
+                        raise pat.NotEvaluable(q)
+                    tv[(size, prod)] = pat.eval_cmp(t, leaf)
+        except (pat.NotEvaluable, pat.Overflow):
+            continue
+        ne = {k: (k[0] != k[1]) for k in tv}
+        if tv == ne:
+            final = (bb, t, z, nz, "Ne")
+        elif tv == {k: not v for k, v in ne.items()}:
+            final = (bb, t, z, nz, "Eq")
+        else:
+            k = [k for k in tv if tv[k] != ne[k]] if sum(tv[k] != ne[k] for k in tv) <= sum(tv[k] == ne[k] for k in tv) else \
+                [k for k in tv if tv[k] == ne[k]]
+            wrong = (bb, t, k[0])
+    if final is None and wrong is not None:
+        bb, t, k = wrong
+        r.sites = 1
+        r.bad("core|final-test", "the test after the loop (%s) does not separate produced == size from the rest: e.g. size %d with %d bytes "
+              "produced is treated like a match" % (flow.show(t)[:70], k[0], k[1]), pat.where(b, bb))
+        return r
     r.need("final comparison produced == size after the loop", final is not None)
     if final is None:
         return r
@@ -246,18 +280,35 @@ def rule_final(facts):
     # (b) inside the loop under the Partial-mode test
     for o in oks:
         where = pat.where(b, o)
-        if o in blocks or any(c.dominates(x, o) and x in blocks for x in [o]):
-            if partial_guarded(facts, b, gs, c, o):
-                r.ok("mode", {"early Ok": "only in Partial mode"})
-            else:
-                r.bad("core|early-ok", "a successful return inside the loop is not restricted to the streaming mode", where)
+        if partial_guarded(facts, b, gs, c, o):
+            r.ok("mode", {"early Ok": "only in Partial mode"})
+        elif o in blocks:
+            r.bad("core|early-ok", "a successful return inside the loop is not restricted to the streaming mode", where)
         else:
             # final Ok: from the Some edge of the size and the Finish edge of the mode test, must pass bb
-            some = option_some_after_loop(b, tm, blocks)
-            if some is None:
-                r.bad("core|some-edge", "cannot locate the `size in effect` test after the loop", where, "unverifiable")
-            elif c.some_path(some, [o], avoid=[bb]) and not only_partial_bypass(facts, b, gs, c, some, bb, o):
-                r.bad("core|final-bypass", "with a size in effect a successful return is reachable without the final comparison", where)
+            # every test of the Option holding the size: from its Some edge (a size is in effect) this Ok must not be
+            # reachable around the comparison, other than through None edges (infeasible: the Option does not change)
+            # or the Partial-mode bypass
+            somes, nones = [], []
+            for blk2 in b.blocks:
+                if blk2.cleanup or blk2.term.k != "switch":
+                    continue
+                t2 = tm.of_operand(blk2.term.discr)
+                if t2[0] == "discr" and pat.has_field(t2, "unpacked_size") and not pat.has_call(t2, "Try::branch"):
+                    for v, tgt in blk2.term.targets:
+                        (somes if v == 1 else nones).append(tgt)
+                    if 0 not in dict(blk2.term.targets):
+                        nones.append(blk2.term.otherwise)
+                    if 1 not in dict(blk2.term.targets):
+                        somes.append(blk2.term.otherwise)
+            somes = [x for x in somes if x not in nones]
+            if not somes:
+                r.bad("core|some-edge", "cannot locate a test of the `size in effect`", where, "unverifiable")
+                continue
+            badp = [e for e in somes if c.some_path(e, [o], avoid=[bb] + nones) and not only_partial_bypass(facts, b, gs, c, e, bb, o, nones)]
+            if badp:
+                r.bad("core|final-bypass", "with a size in effect a successful return is reachable without the final comparison "
+                      "(e.g. through the end-marker exit of the loop)", where)
             else:
                 r.ok("must-pass", {"Ok": "behind the final comparison when a size is in effect and mode is Finish"})
     return r
@@ -285,7 +336,7 @@ def option_some_after_loop(b, tm, blocks):
     return None
 
 
-def only_partial_bypass(facts, b, gs, c, some, cmpbb, o):
+def only_partial_bypass(facts, b, gs, c, some, cmpbb, o, nones=()):
     """The only way around the comparison is the `mode == Finish` test being false."""
     for (bb, t, z, nz) in gs:
         s = pat.cmp_sides(t)
@@ -293,7 +344,7 @@ def only_partial_bypass(facts, b, gs, c, some, cmpbb, o):
             vs = pat.promoted_variants(facts, s[1]) + pat.promoted_variants(facts, s[2])
             if any(v[1] == "Finish" for v in vs) and c.dominates(bb, cmpbb):
                 # paths avoiding cmpbb must leave through the false edge of this test
-                if not c.some_path(some, [o], avoid=[cmpbb, z]):
+                if not c.some_path(some, [o], avoid=[cmpbb, z] + list(nones)):
                     return True
     return False
 
